@@ -135,7 +135,15 @@ def check_fresh(case, stats):
         def get_next_id(self):
             self.n += 1
             return "id-%d" % (self.n * 3)
-    g = Prefixed()
+    class Duck:
+        """not an IdGenerator subclass at all: any object with get_next_id() (a locking wrapper, the caller's own numbering)"""
+        def __init__(self):
+            self.n = 0
+
+        def get_next_id(self):
+            self.n += 1
+            return "id-%d" % (self.n * 3)
+    g = Prefixed() if len(text) % 2 else Duck()
     r2 = gh.parse(text, dflt, builder=gh.AstBuilder(g))
     if r2[0] == "ok":
         d2 = dict(r2[1], uri=URI)
@@ -265,11 +273,17 @@ def check_history(case, stats):
             if late is not None and counter[0] == late:
                 ev.options.print_pickles = True
             counter[0] += 1
-            out = run_stream(ev, t)
-            if out is not None and not ev.options.print_pickles:
-                # same document as a fresh stream would give it, minus the pickles
-                return out
-            return out
+            if counter[0] - 1 in case.get("abandon", []):
+                # the consumer takes the first envelopes of this source only (source, document, maybe one pickle) and closes the generator
+                gen = ev.enum({"source": {"uri": URI, "data": t, "mediaType": "text/x.cucumber.gherkin+plain"}})
+                got = []
+                for e in gen:
+                    got.append(e)
+                    if len(got) >= case.get("take", 2):
+                        break
+                gen.close()
+                return ("partial", [e for e in got if "source" not in e])
+            return run_stream(ev, t)
         fresh = lambda t: run_stream(gh.GherkinEvents(gh.GherkinEvents.Options(True, True, True)), t)
     else:
         g = gh.IdGenerator()
@@ -289,6 +303,14 @@ def check_history(case, stats):
             compiler.id_generator = g
             seen = {}
         out = run(t)
+        if isinstance(out, tuple):
+            # whatever was delivered before the consumer walked away keeps its ids for the rest of the stream
+            outcomes.append("partial")
+            for x in [int(x) for x in collect_ids(out[1], [])]:
+                if x in seen:
+                    raise Violation(case, "id %d delivered for (abandoned) document #%d was already used for document #%d of the same stream" % (x, i, seen[x]))
+                seen[x] = i
+            continue
         outcomes.append("acc" if out is not None else "rej")
         if out is None:
             continue
@@ -323,7 +345,7 @@ def g_history(s):
         else:
             texts.append(noisy.g_noisy(s)[0])
     return {"sub": "history", "api": s.choice(["stream", "pair"]), "texts": texts, "new_generator_before": [i for i in range(1, n) if s.int(4) == 0],
-            "late_pickles": (s.int(n) if s.int(3) == 0 else None)}
+            "late_pickles": (s.int(n) if s.int(3) == 0 else None), "abandon": [i for i in range(n - 1) if s.int(4) == 0], "take": s.rng(1, 4)}
 
 
 def unit_history(a):
